@@ -48,6 +48,7 @@ type specEnv struct {
 	phiSubst map[*ssa.Phi]Val
 	atBlock  *ssa.BasicBlock
 	noLocals bool
+	isCallee bool // evaluating a clause of a callee's contract at a call site: caller-local names (labels, call results) are out of scope
 	pkg      *types.Package
 	self     *SV
 	fnGhost  string // prefix for function-level ghosts
@@ -388,6 +389,14 @@ func (env *specEnv) binop(x *SBin) SV {
 				env.fail("comparing %s with %s in %s", a.Sort, b.Sort, specString(x))
 			}
 			t = tEq(a.T, b.T)
+			if a.GT != nil && b.GT != nil && !a.Nil && !b.Nil {
+				// channels of different element types are different objects (equal only when both are nil)
+				ca, oka := a.GT.Underlying().(*types.Chan)
+				cb, okb := b.GT.Underlying().(*types.Chan)
+				if oka && okb && !types.Identical(ca.Elem(), cb.Elem()) {
+					t = tAnd(t, tEq(a.T, "0"))
+				}
+			}
 		}
 		if x.Op == "!=" {
 			t = tNot(t)
@@ -473,7 +482,7 @@ func (env *specEnv) ident(name string) SV {
 		l := e.refLoc(pv.Ref, pv.Elem)
 		return SV{T: e.load(env.cur, l), Sort: e.sortOf(pv.Elem), GT: pv.Elem}
 	}
-	if strings.HasPrefix(name, "call_") {
+	if strings.HasPrefix(name, "call_") && !env.isCallee {
 		if v, ok := e.callLog[name]; ok {
 			return v
 		}
@@ -889,6 +898,11 @@ func (env *specEnv) call(x *SCall) SV {
 		if v.Sort == "Slice" {
 			return SV{T: sx("s-cap", v.T), Sort: "Int"}
 		}
+		if v.GT != nil {
+			if _, ok := v.GT.Underlying().(*types.Chan); ok {
+				return SV{T: sx("chancap", v.T), Sort: "Int"}
+			}
+		}
 		env.fail("cap of %s", v.Sort)
 	case "fresh":
 		v := arg(0)
@@ -1014,6 +1028,13 @@ func (env *specEnv) call(x *SCall) SV {
 		lid, ok := x.Args[0].(*SIdent)
 		if !ok || len(x.Args) != 2 {
 			env.fail("at(label, expr)")
+		}
+		for _, cl := range env.calleeLabels {
+			if cl == lid.Name {
+				// a label of the callee whose contract is being applied: its state is not visible to this caller,
+				// even when the caller happens to use the same label name
+				env.fail("label %s is not declared", lid.Name)
+			}
 		}
 		st, ok := e.labels[lid.Name]
 		if !ok {
@@ -1386,6 +1407,9 @@ func (env *specEnv) isCalleeGhostError(msg string) bool {
 		if strings.Contains(msg, "label "+l+" is not declared") {
 			return true
 		}
+	}
+	if env.isCallee && strings.Contains(msg, "unknown identifier \"call_") {
+		return true // results of the callee's own calls: callee-local as well
 	}
 	return false
 }
